@@ -8,6 +8,10 @@ import Driver.Sim
 import Driver.Mem
 import Driver.FileIO
 import Driver.Safe
+import Driver.Det
+import Driver.Util
+import Driver.Listing
+import Driver.Macro
 
 def dispatch (line : String) : String :=
   match (line.trimAscii.toString.splitOn " ").filter (· ≠ "") with
@@ -43,6 +47,12 @@ def dispatch (line : String) : String :=
   | "sprint" :: args => Driver.Safe.handleSprint args
   | "swalk" :: args => Driver.Safe.handleSwalk args
   | "svalid" :: args => Driver.Safe.handleSvalid args
+  | "det" :: args => Driver.Det.handle args
+  | "detold" :: args => Driver.Det.handleBefore args
+  | "util" :: args => Driver.Util.handle args
+  | "unum" :: args => Driver.Util.handleNum args
+  | "lst" :: args => Driver.Listing.handle args
+  | "mexp" :: args => Driver.Macro.handleMexp args
   | _ => "bad-op"
 
 partial def loop (h : IO.FS.Stream) (out : IO.FS.Stream) : IO Unit := do
